@@ -26,6 +26,7 @@ import (
 	"errors"
 	"fmt"
 	"os"
+	"path/filepath"
 	"runtime/trace"
 	"strings"
 )
@@ -152,6 +153,20 @@ func vjUnmarshal(data []byte, v any) error {
 			res = append(res, json.RawMessage(vjTrim(e)))
 		}
 		*p = res
+		return nil
+	case *string:
+		if isNull {
+			return nil
+		}
+		if len(data) < 2 || data[0] != '"' || data[len(data)-1] != '"' {
+			return errors.New("json: cannot unmarshal into string")
+		}
+		for _, c := range data[1 : len(data)-1] {
+			if c == '\\' || c == '"' || c < 0x20 {
+				panic("json model: only plain strings")
+			}
+		}
+		*p = string(data[1 : len(data)-1])
 		return nil
 	case *map[string]json.RawMessage:
 		m, err := vjObject(data, isNull)
@@ -1246,5 +1261,178 @@ func H_C04_dynamicForks(n int, consumerI int) {
 		verifAssert(byNode, "C04: the consumer is recorded as a holder of the fork (fileArgs and filePostNodes agree)")
 		_, scratch := f.fileArgs["scratch"]
 		verifAssert(!scratch, "C14: an output nobody uses is not held")
+	}
+}
+
+// ---- C04: files reached through a projection stay held ----
+
+type vrRegular struct{ os.FileInfo }
+
+func (vrRegular) Mode() os.FileMode { return 0o644 }
+func (vrRegular) IsDir() bool       { return false }
+func (vrRegular) Size() int64       { return 1 }
+
+// the files a stage's jobs left in their files directories
+var vrStageFiles map[*Metadata][]string
+
+//verif:stub (*github.com/martian-lang/martian/martian/core.Metadata).enumerateFiles
+func vrEnumerateFiles(self *Metadata) ([]string, error) { return vrStageFiles[self], nil }
+
+//verif:stub github.com/martian-lang/martian/martian/util.Walk
+func vrWalk(root string, walkFn filepath.WalkFunc) error { return walkFn(root, vrRegular{}, nil) }
+
+//verif:stub os.Lstat
+func vrLstat(name string) (os.FileInfo, error) { return vrRegular{}, nil }
+
+//verif:stub path/filepath.EvalSymlinks
+func vrEvalSymlinks(name string) (string, error) { return name, nil }
+
+const vrProjSrc = `
+filetype txt;
+
+struct S(
+    txt f,
+    int n,
+)
+
+stage PRODUCE(
+    in  int      n,
+    out map<S>   items,
+    out S[]      arr,
+    out S        one,
+    out map<S>[] many,
+    src comp     "bin",
+)
+
+stage CONSUME(
+    in  map<txt>   x,
+    in  txt[]      y,
+    in  txt        z,
+    in  map<txt>[] w,
+    out int        n,
+    src comp       "bin",
+)
+
+pipeline TOP(
+    in  int n,
+    out int n,
+)
+{
+    call PRODUCE(
+        n = self.n,
+    )
+
+    call CONSUME(
+        x = PRODUCE.items.f,
+        y = PRODUCE.arr.f,
+        z = PRODUCE.one.f,
+        w = PRODUCE.many.f,
+    )
+
+    return (
+        n = CONSUME.n,
+    )
+}
+
+call TOP(
+    n = 3,
+)
+`
+
+func vrProjGraph() *vrReal {
+	disableUniquification = false
+	return verifCached("vrProjGraph", func() any {
+		rt := &Runtime{Config: &RuntimeOptions{JobMode: "local", VdrMode: VdrStrict}, mrjob: "/m/mrjob", adaptersPath: "/m/adapters"}
+		_, _, ps, err := rt.instantiatePipeline([]byte(vrProjSrc), "/m/p.mro", "ps", "/ps", nil, "none", nil, false, true, context.Background())
+		if err != nil {
+			panic("fixture does not instantiate: " + err.Error())
+		}
+		n := func(name string) *Node { return ps.node.top.allNodes["ID.ps.TOP."+name] }
+		return &vrReal{ps, n("PRODUCE"), n("CONSUME"), nil}
+	}).(*vrReal)
+}
+
+// H_C04_projectedHolds(nkeys): CONSUME is bound to the file member f of
+// PRODUCE's outputs, projected through a typed map, an array, a plain struct
+// and an array of typed maps.  PRODUCE has finished; its _outs holds nkeys
+// entries per map (keys arbitrary lower-case letters — including the letters
+// that are member names of the struct), each with its own file.  The real
+// removeEmptyFileArgs and getArgsToFilesMap run, as they do when the stage
+// completes and when VDR first looks at it.
+//
+//	C04: while CONSUME has not finished, every file its arguments name is
+//	     still attributed to an argument CONSUME holds — whatever the path of
+//	     the projection and whatever the map keys are.
+func H_C04_projectedHolds(nkeys int) {
+	w := vrProjGraph()
+	prod, cons := w.gen, w.work
+	f := prod.forks[0]
+	files := func(tag string, k int) string {
+		return "/ps/TOP/PRODUCE/fork0/files/" + tag + string(rune('0'+k)) + ".txt"
+	}
+	entry := func(path string) []byte { return []byte(`{"f":"` + path + `","n":1}`) }
+	keys := make([]string, nkeys)
+	for i := range keys {
+		b := verifBytes("key", 1)
+		verifAssume(verifAll(b[0] >= 'a', b[0] <= 'z'))
+		keys[i] = string(b)
+		for j := 0; j < i; j++ {
+			verifAssume(keys[j] != keys[i])
+		}
+	}
+	mapOf := func(tag string) []byte {
+		out := []byte{'{'}
+		for i, k := range keys {
+			if i > 0 {
+				out = append(out, ',')
+			}
+			out = append(out, (`"` + k + `":`)...)
+			out = append(out, entry(files(tag, i))...)
+		}
+		return append(out, '}')
+	}
+	outs := LazyArgumentMap{
+		"items": mapOf("item"),
+		"arr":   vrCat([]byte("["), entry(files("arr", 0)), []byte(","), entry(files("arr", 1)), []byte("]")),
+		"one":   entry(files("one", 0)),
+		"many":  vrCat([]byte("["), mapOf("many"), []byte("]")),
+	}
+	want := map[string][]string{
+		"items.f": nil, "arr.f": {files("arr", 0), files("arr", 1)}, "one.f": {files("one", 0)}, "many.f": nil,
+	}
+	for i := range keys {
+		want["items.f"] = append(want["items.f"], files("item", i))
+		want["many.f"] = append(want["many.f"], files("many", i))
+	}
+	for arg := range want {
+		_, held := f.fileArgs[arg][cons]
+		verifAssert(held, "C04: the consumer holds every output member it is bound to (as instantiated)")
+	}
+	// what doComplete does when the stage finishes, and what VDR does when it
+	// first looks at the fork
+	vrStageFiles = map[*Metadata][]string{}
+	for _, names := range want {
+		vrStageFiles[f.join_metadata] = append(vrStageFiles[f.join_metadata], names...)
+	}
+	scratch := "/ps/TOP/PRODUCE/fork0/files/scratch.txt"
+	vrStageFiles[f.join_metadata] = append(vrStageFiles[f.join_metadata], scratch)
+	f.removeEmptyFileArgs(outs)
+	f.fileParamMap = nil
+	f.cacheParamFileMap(outs)
+	verifCover("projected arguments examined")
+	for arg, names := range want {
+		_, held := f.fileArgs[arg][cons]
+		verifAssert(held, "C04: an argument that names files stays held by its unfinished consumer after the producer completed")
+		for _, name := range names {
+			entry := f.fileParamMap[name]
+			verifAssert(entry != nil, "the stage's files are all in the VDR file cache")
+			if entry != nil {
+				_, ok := entry.args[arg]
+				verifAssert(ok, "C04: every file an argument names through a projection (array, typed map, struct) is kept alive by that argument while the consumer is unfinished")
+			}
+		}
+	}
+	if e := f.fileParamMap[scratch]; e != nil {
+		verifAssert(e.args == nil, "C14: a file no argument names is not kept alive")
 	}
 }
